@@ -1,6 +1,6 @@
 CONSTANTS
   Small = TRUE
-  WithPid = FALSE
+  WithPid = TRUE
 SPECIFICATION Spec
-INVARIANT NoWitness
+INVARIANT AltUnitEquivalence
 CHECK_DEADLOCK FALSE
